@@ -523,7 +523,7 @@ def same_c(a, b):
     return (na & nb) | (~na & ~nb & (a == b))
 
 
-def run_direct_impl(cfg):
+def run_direct_impl(cfg, fill=None):
     import dask.array as da
     from katdal.applycal import (apply_flags_correction, apply_vis_correction, apply_weights_correction,
                                  calc_correction)
@@ -540,7 +540,9 @@ def run_direct_impl(cfg):
                 if h:
                     cache['Calibration/Corrections/%s/%s/%s' % (tuple(n.split('.')) + (lab,))] = \
                         np.ones((T, 1), np.complex64)
-    for p in cfg['prods']:
+    if fill is not None:
+        fill(cache)                    # sol route: the correction sensors come from katdal's own calculators
+    for p in ([] if fill is not None else cfg['prods']):
         s, t = p['name'].split('.')
         for lab, per in zip(cfg['labels'], p['corr']):
             arr = np.array([[c_to_py(z) for z in g] for g in per], np.complex64)       # (T, cn)
@@ -705,6 +707,205 @@ def run_direct(ctx, cfg, mo):
         ctx.count('map=%s' % {0: 'broadcast', 1: 'direct', 2: 'nearest'}[k])
     ctx.count('nan_factor=%s' % bool(np.isnan(m['corr']).any()))
     ctx.count('zero_factor=%s' % bool((m['corr'] == 0).any()))
+
+
+# --------------------------------------------------------------------------- sol route: calculators -> kernels
+def gen_sol(rng, tier='quick'):
+    """Solutions (zero / NaN / inf / numbers, varying in time, with or without a channel axis, per target) through
+    katdal's own calc_gain_correction / calc_bandpass_correction / calc_delay_correction, the resulting correction
+    sensors through calc_correction and the three kernels."""
+    T = rng.randint(2, 6)
+    F = rng.randint(1, 6)
+    n_ant = rng.randint(1, 2)
+    labels = ['m%03d%s' % (a, p) for a in range(n_ant) for p in 'hv']
+    rng.shuffle(labels)
+    ninp = len(labels)
+    B = rng.randint(1, 6)
+    cps = [[rng.randrange(ninp), rng.randrange(ninp)] for _ in range(B)]
+    data, df = gen_freqs(rng, F)
+    data.sort()
+    mode = rng.choice(['same', 'same', 'shifted', 'other'])
+    if mode == 'same':
+        cal = list(data)
+    elif mode == 'shifted':
+        sh = rng.choice([-2, -1, 1, 2]) * df
+        cal = [f + sh for f in data]
+    else:
+        cal = sorted(gen_cal_freqs(rng, data, df, 'other'))
+        if len(set(cal)) != len(cal):
+            cal = list(data)                   # np.interp needs strictly increasing abscissae
+    targets = None
+    if rng.random() < 0.6:
+        targets = [0]
+        for _ in range(T - 1):
+            targets.append(targets[-1] if rng.random() < 0.6 else rng.choice([k for k in range(3) if k != targets[-1]]))
+    types = rng.sample(TYPES, rng.randint(1, 3))
+    prods = []
+
+    def leaf(e):
+        return [2.0 ** e, 0.0]
+
+    def bad():
+        return 'inf' if rng.random() < 0.3 else None
+    for t in types:
+        hold = t in ('K', 'B')
+        n_ev = rng.randint(1, min(3, T))
+        evs = sorted(rng.sample(range(T), n_ev))
+        if hold:
+            evs[0] = 0
+        nch = 1 if (t not in GAIN_TYPES and t != 'B') else (len(cal) if (t == 'B' or rng.random() < 0.3) else 1)
+        per_input = []
+        for _ in range(ninp):
+            e0 = rng.randint(-2, 2)
+            style = rng.choice(['const', 'const', 'dead', 'varying', 'zero_once', 'zero_once', 'all_invalid', 'holes'])
+            zero_at = rng.choice(evs)
+            dead_ch = rng.randrange(nch) if rng.random() < 0.3 else None
+            vals = []
+            for d in evs:
+                if t == 'K':
+                    vals.append(bad() if rng.random() < 0.25 else 0.0)
+                    continue
+                vec = []
+                for c in range(nch):
+                    if style == 'all_invalid' or (style == 'holes' and rng.random() < 0.4):
+                        vec.append(bad())
+                    elif style == 'dead' or (style == 'zero_once' and d == zero_at) or c == dead_ch:
+                        vec.append([0.0, 0.0])
+                    elif style == 'varying':
+                        vec.append(leaf(e0 + rng.randint(-1, 1)))
+                    else:
+                        vec.append(leaf(e0))
+                if t == 'B' and nch > 2 and rng.random() < 0.5:
+                    vec[0] = bad()                                  # band edges
+                    if rng.random() < 0.5:
+                        vec[-1] = bad()
+                vals.append(vec)
+            per_input.append(vals)
+        prods.append(dict(name='l1.' + t, type=t, dumps=evs, values=per_input))
+    vis = [[[[rng.randint(-64, 64), rng.randint(-64, 64), rng.choice([0, 1])] if rng.random() > 0.02 else None
+             for _ in range(B)] for _ in range(F)] for _ in range(T)]
+    flags = [[[rng.randrange(256) for _ in range(B)] for _ in range(F)] for _ in range(T)]
+    wts = [[[[rng.randint(1, 64), rng.choice([0, 1, 2])] for _ in range(B)] for _ in range(F)] for _ in range(T)]
+    return dict(route='sol', T=T, labels=labels, cps=cps, data_freqs=[q_wire(f) for f in data],
+                cal_freqs=[q_wire(f) for f in cal], targets=targets, products=prods,
+                chunks=[compositions(rng, T), compositions(rng, F), [B]], chunks2=[compositions(rng, T), compositions(rng, F)],
+                vis=vis, flags=flags, weights=wts,
+                subset=[sorted(rng.sample(range(T), rng.randint(1, T))), sorted(rng.sample(range(F), rng.randint(1, F))),
+                        sorted(rng.sample(range(B), rng.randint(1, B)))])
+
+
+def _sol_fill(cfg, got):
+    """-> fill(cache): run katdal's correction calculators on the solution sensors and register the results."""
+    from katdal import applycal
+    from katdal.categorical import CategoricalData, ComparableArrayWrapper
+    T = cfg['T']
+    data_freqs = np.array([float(Fraction(*f)) for f in cfg['data_freqs']])
+    cal_freqs = np.array([float(Fraction(*f)) for f in cfg['cal_freqs']])
+    tsens = None
+    if cfg['targets'] is not None:
+        tg = cfg['targets']
+        ev = [0] + [k for k in range(1, T) if tg[k] != tg[k - 1]]
+        tsens = CategoricalData([tg[k] for k in ev], ev + [T])
+
+    def fill(cache):
+        for p in cfg['products']:
+            t = p['type']
+            got[t] = []
+            for lab, vals in zip(cfg['labels'], p['values']):
+                values, events = [], list(p['dumps'])
+                for v in vals:
+                    if t == 'K':
+                        arr = np.array([[np.nan if v is None else (np.inf if isinstance(v, str) else v)]], np.float64)
+                    else:
+                        col = np.array([leaf_c(x) for x in v], np.complex64)
+                        arr = col.reshape(len(v), 1, 1) if (t == 'B' or len(v) > 1) else col.reshape(1, 1)
+                    values.append(ComparableArrayWrapper(arr))
+                if events[0] != 0:
+                    # what the sensor cache serves before the first gain solution
+                    values.insert(0, applycal.INVALID_GAIN)
+                    events.insert(0, 0)
+                sensor = CategoricalData(values, events + [T])
+                if t == 'K':
+                    corr = applycal.calc_delay_correction(sensor, (0, 0), data_freqs)
+                elif t == 'B':
+                    corr = applycal.calc_bandpass_correction(sensor, (0, 0), data_freqs, cal_freqs)
+                elif t == 'G':
+                    corr = applycal.calc_gain_correction(sensor, (0, 0))
+                else:
+                    corr = applycal.calc_gain_correction(sensor, (0, 0), tsens)
+                cache['Calibration/Corrections/l1/%s/%s' % (t, lab)] = corr
+                got[t].append([np.atleast_1d(np.asarray(corr[d])).astype(np.complex64) for d in range(T)])
+    return fill
+
+
+def run_sol(ctx, cfg):
+    T, F, B = cfg['T'], len(cfg['data_freqs']), len(cfg['cps'])
+    data_freqs = np.array([float(Fraction(*f)) for f in cfg['data_freqs']])
+    cal_freqs = np.array([float(Fraction(*f)) for f in cfg['cal_freqs']])
+    names = [p['name'] for p in cfg['products']]
+    # what the solutions call for
+    want, wmask, cases, mine = {}, {}, [], []
+    for p in cfg['products']:
+        per_input, per_mask = [], []
+        for vals in p['values']:
+            rows = derive_input(p['type'], list(zip(p['dumps'], vals)), T, data_freqs, cal_freqs, cfg['targets'],
+                                cases, mine)
+            arrs = [entries_to_arrays(r) for r in rows]
+            per_input.append([a[0] for a in arrs])
+            per_mask.append([a[1] for a in arrs])
+        want[p['type']], wmask[p['type']] = per_input, per_mask
+    if ctx.model_ok:
+        for k, mo in enumerate(ctx.model(cases)):
+            if mo != mine[k]:
+                ctx.disagree('route=sol;symptom=harness_corrections_differ_from_model', cfg, mine[k], mo,
+                             'corrections derived from the solutions: harness derivation differs from '
+                             'Model/ApplycalSol.v (wire 131 op %d)' % cases[k][1][0], kind='tie')
+                return
+    dcfg = dict(cfg, route='direct', prods=[dict(name=n, stream='l1', cal_freqs=cfg['cal_freqs']) for n in names])
+    got = {}
+    try:
+        impl = run_direct_impl(dcfg, fill=_sol_fill(cfg, got))
+    except Exception as e:
+        ctx.disagree('route=sol;symptom=raises;exc=%s' % type(e).__name__, cfg, repr(e)[:300], 'a result',
+                     'correction calculators / calc_correction / kernels raised')
+        return
+    kinds = set()
+    for p in cfg['products']:
+        t = p['type']
+        bad = _same_corrections(got[t], want[t], wmask[t])
+        if bad is not None:
+            ctx.disagree('route=sol;obs=corrections_from_solutions;type=%s;symptom=%s' % (t, bad[2]), cfg,
+                         dict(input=cfg['labels'][bad[0]], dump=bad[1], value=str(got[t][bad[0]][bad[1]])),
+                         dict(value=str(want[t][bad[0]][bad[1]])),
+                         'correction of %s for %s at dump %d differs from what the solutions call for'
+                         % (t, cfg['labels'][bad[0]], bad[1]))
+        for vals in p['values']:
+            for v in vals:
+                for x in (v if isinstance(v, list) and v and isinstance(v[0], (list, str, type(None))) else [v]):
+                    kinds.add('zero' if x in ([0.0, 0.0],) else 'inf' if isinstance(x, str) else
+                              'nan' if x is None else 'number')
+    base = dict(cfg, route='direct', prods=[])
+    scfg, ms = _spec_on(ctx, base, want, wmask, got, names, cal_freqs)
+    compare(ctx, cfg_with(cfg, scfg), impl, ms, 'sol', sides=('spec',), spec_name='spec_from_solutions',
+            tag=';types=' + '+'.join(sorted(p['type'] for p in cfg['products'])))
+    ts, cs, bs = cfg['subset']
+    ix = np.ix_(ts, cs, bs)
+    for nm in ('vis', 'weights', 'flags'):
+        a, b = impl['sub_' + nm], impl[nm][ix]
+        eq = same_c(a, b) if nm == 'vis' else a == b
+        if a.shape != b.shape or not np.all(eq):
+            ctx.disagree('route=sol;obs=%s;symptom=chunking_or_subset_dependent' % nm, cfg, str(a.tolist())[:200],
+                         str(b.tolist())[:200], 'second chunking + loaded subset differs from the full result')
+    ctx.traces_validated += 1
+    ctx.note_case(cfg_key(cfg), nontrivial=bool(np.isnan(ms['corr']).any() and (~np.isnan(ms['corr'])).any()),
+                  sample=dict(route='sol', T=T, F=F, products=names, targets=cfg['targets'],
+                              nan_factors=int(np.isnan(ms['corr']).sum()), inexact=ms.get('tainted', 0)))
+    ctx.count('route=sol')
+    for k in sorted(kinds):
+        ctx.count('sol_solution_kind=' + k)
+    ctx.count('sol_nan_factor=%s' % bool(np.isnan(ms['corr']).any()))
+    ctx.count('sol_inexact_factor=%s' % bool(ms.get('tainted')))
+    ctx.count('sol_targets=%s' % ('none' if cfg['targets'] is None else len(set(cfg['targets']))))
 
 
 def cfg_key(cfg):
@@ -965,6 +1166,38 @@ def stitched_events(cal, t):
     return [[e, [row for p in part for row in p.get(e, missing)]] for e in times]
 
 
+def derive_input(t, evs, n, data_freqs, cal_freqs, targets, cases, mine):
+    """The corrections ONE input must get from product type t over n dumps: -> [dump] -> list of entries.
+    evs: the solutions the data set sees, in time order, as (relative dump, payload): gain types [leaf per channel]
+    (interpolated in time, per target for the self-cal types), B [leaf per cal channel] and K a delay leaf (the
+    solution in force = the last one at or before the dump, the first one before that).
+    cases / mine: the same derivation as wire 131 calls and the harness's answer in wire form (cross-check)."""
+    fw = [q_wire(Fraction(float(f))) for f in data_freqs]
+    if t in GAIN_TYPES:
+        tg = None if (t == 'G' or targets is None) else list(targets)
+        rows = py_gain(evs, n, tg)
+        cases.append([131, [1, n, [] if tg is None else [int(x) + 1 for x in tg],
+                            [[q_wire(e), [leaf_wire(x) for x in v]] for e, v in evs]]])
+        mine.append([wire_entries(r) for r in rows])
+        return rows
+    cw = [q_wire(Fraction(float(f))) for f in cal_freqs]
+    rows, segs = [], {}
+    for d in range(n):
+        le = [k for k, (e, _) in enumerate(evs) if e <= d]
+        k = le[-1] if le else 0
+        if k not in segs:
+            v = evs[k][1]
+            if t == 'K':
+                segs[k] = py_delay(v, data_freqs)
+                cases.append([131, [3, leaf_wire(v if (v is None or isinstance(v, str)) else [v, 0.0]), fw]])
+            else:
+                segs[k] = py_bandpass(cal_freqs, v, data_freqs)
+                cases.append([131, [2, cw, fw, [leaf_wire(x) for x in v]]])
+            mine.append(wire_entries(segs[k]))
+        rows.append(segs[k])
+    return rows
+
+
 def expected_corrections(vcfg, inputs, data_freqs, dumps, names=None, targets=None, ctx=None):
     """-> ({type: [input][dump] -> complex64 vector}, {type: [input][dump] -> bool vector}): the corrections the
     SOLUTIONS call for and the positions at which only "a non-zero number" is known (there the vector holds 1).
@@ -978,8 +1211,6 @@ def expected_corrections(vcfg, inputs, data_freqs, dumps, names=None, targets=No
              for a_i, ant in enumerate(cal['antlist'])}
     names = expected_products(vcfg)[2] if names is None else names
     out, masks, cases, mine = {}, {}, [], []
-    fw = [q_wire(Fraction(float(f))) for f in data_freqs]
-    cw = [q_wire(Fraction(float(f))) for f in cal_freqs]
     for name in names or []:
         t = name.split('.')[1]
         kept = sorted(_kept_events(stitched_events(cal, t), dumps).items())
@@ -988,29 +1219,11 @@ def expected_corrections(vcfg, inputs, data_freqs, dumps, names=None, targets=No
             p_i, a_i = index[inp]
             if t in GAIN_TYPES:
                 evs = [(e, [v[p_i][a_i]] if _shape_of(v) == 2 else [row[p_i][a_i] for row in v]) for e, v in kept]
-                tg = None if (t == 'G' or targets is None) else list(targets)
-                rows = py_gain(evs, n, tg)
-                cases.append([131, [1, n, [] if tg is None else [int(x) + 1 for x in tg],
-                                    [[q_wire(e), [leaf_wire(x) for x in v]] for e, v in evs]]])
-                mine.append([wire_entries(r) for r in rows])
+            elif t == 'K':
+                evs = [(e, v[p_i][a_i]) for e, v in kept]
             else:
-                rows = []
-                segs = {}
-                for d in range(n):
-                    v = _in_force(dict(kept), d, True)
-                    key = id(v)
-                    if key not in segs:
-                        if t == 'K':
-                            segs[key] = py_delay(v[p_i][a_i], data_freqs)
-                            cases.append([131, [3, leaf_wire(None if v[p_i][a_i] is None else
-                                                             (v[p_i][a_i] if isinstance(v[p_i][a_i], str)
-                                                              else [v[p_i][a_i], 0.0])), fw]])
-                        else:
-                            col = [v[k][p_i][a_i] for k in range(len(v))]
-                            segs[key] = py_bandpass(cal_freqs, col, data_freqs)
-                            cases.append([131, [2, cw, fw, [leaf_wire(x) for x in col]]])
-                        mine.append(wire_entries(segs[key]))
-                    rows.append(segs[key])
+                evs = [(e, [v[k][p_i][a_i] for k in range(len(v))]) for e, v in kept]
+            rows = derive_input(t, evs, n, data_freqs, cal_freqs, targets, cases, mine)
             arrs = [entries_to_arrays(r) for r in rows]
             per_input.append([a[0] for a in arrs])
             per_mask.append([a[1] for a in arrs])
@@ -1562,7 +1775,9 @@ def run_invert(ctx, vcfg):
 
 
 def run_case(ctx, cfg):
-    if cfg.get('route') == 'direct':
+    if cfg.get('route') == 'sol':
+        run_sol(ctx, cfg)
+    elif cfg.get('route') == 'direct':
         mo = ctx.model([model_case(cfg)])[0] if ctx.model_ok else None
         if mo == [-999]:
             ctx.disagree('route=direct;symptom=model_rejects_case', cfg, None, mo, 'wire format error', kind='tie')
@@ -1585,6 +1800,8 @@ def run(ctx):
             ctx.disagree('route=direct;symptom=model_rejects_case', cfg, None, mo, 'wire format error', kind='tie')
             continue
         run_direct(ctx, cfg, mo)
+    for _ in range(ctx.scale(150, 3000)):
+        run_sol(ctx, gen_sol(random.Random(ctx.rng.getrandbits(48)), ctx.tier))
     for k in range(ctx.scale(48, 600)):
         # a sixth of the cases each: a multi-part B product; reopened with a channel (+ dumps) preselection; zero
         # solutions in every product; a lenient request by bare types with a missing type before a present one;
